@@ -141,13 +141,13 @@ Bytes(o, data, b2b, junk, res, out) ==
 (* consuming one-shots: AsyncStreamCipher::{encrypt,decrypt}[_b2b], cts::{Encrypt,Decrypt}, *_padded* *)
 OneShot(o, how, data, b2b, junk, res, out, outlen) ==
   LET ob   == objs[o]
-      bs   == ob.bs
+      bs   == IF how = "padded" THEN ob.unit ELSE ob.bs   \* padding works on the MODE's block size (1 for CFB-8)
       pmsg == IF how = "padded" /\ ob.dir = "enc" THEN Pkcs7Pad(data, bs) ELSE data
       need == IF how = "padded" /\ ob.dir = "enc" THEN Len(pmsg) ELSE Len(data)
       raw  == CASE how = "cts" -> IF Len(data) >= bs THEN CtsRef(ob.kind, ob.dir, ob.c, ob.iv0, data, bs) ELSE <<>>
                 [] how = "async" -> AsyncOneShot(ob.kind, ob.dir, ob.c, ob.st, data, ob.unit, bs)
                 [] how = "padded" -> IF Len(pmsg) % bs = 0
-                                     THEN StepBlocks(ob.kind, ob.dir, ob.c, ob.st, pmsg, ob.unit, bs).out ELSE <<>>
+                                     THEN StepBlocks(ob.kind, ob.dir, ob.c, ob.st, pmsg, ob.unit, ob.bs).out ELSE <<>>
       padOk == how = "padded" /\ ob.dir = "dec" /\ Len(data) % bs = 0 /\ Pkcs7Ok(raw, bs)
       pout == IF how = "padded" /\ ob.dir = "dec" THEN (IF padOk THEN Pkcs7Unpad(raw) ELSE <<>>) ELSE raw
       pres == CASE how = "cts" -> IF Len(data) < bs \/ (b2b /\ Len(junk) # Len(data)) THEN "err" ELSE "ok"
@@ -205,7 +205,7 @@ Rem(o, some, v, res) ==
 (* StreamCipherSeekCore::set_block_pos on a core *)
 SetBpos(o, v, res) ==
   LET ob == objs[o] IN
-      /\ Live(o) /\ ob.kind \in CoreKinds /\ BaseKind(ob.kind) \in SeekKinds
+      /\ Live(o) /\ BaseKind(ob.kind) \in SeekKinds   \* cores directly; byte-level wrappers via from_core
       /\ objs' = [objs EXCEPT ![o] = [ob EXCEPT !.st = IF res = "ok" THEN [blk |-> v, off |-> 0] ELSE @,
                                                  !.moved = TRUE,
                                                  !.status = IF res = "panic" THEN "dead" ELSE @]]
@@ -245,7 +245,9 @@ DropObj(o, image, secrets, res) ==
                 !.outOk = \A k \in 1..Len(secrets) :
                             \A i \in 1..(Len(secrets[k]) - 7) :
                                LET wd == SubSeq(secrets[k], i, i + 7) IN
-                               (\A j \in 1..8 : wd[j] = ByteOf(0)) \/ ~Occurs(wd, image)]
+                               \* only windows that identify the secret: at least 5 distinct byte values
+                               \* (a run of 00 / FF or a small counter also occurs in unrelated data)
+                               Cardinality({wd[j] : j \in 1..8}) < 5 \/ ~Occurs(wd, image)]
   /\ UNCHANGED <<ks, ksbad, dbg>>
 
 SysInit == objs = EmptyFn /\ last = NoLast /\ ks = EmptyFn /\ ksbad = {} /\ dbg = EmptyFn /\ fin = FALSE
